@@ -1455,6 +1455,10 @@ func (fr *Frame) callSiteSpecs(b *ssa.BasicBlock, idx int, ins ssa.Instruction, 
 			avs = append(avs, fr.val(a))
 		}
 		fr.callArgVals[fmt.Sprintf("%s#%d", name, n)] = avs
+		if cc.IsInvoke() {
+			// the receiver of an interface call is addressed as recv() / recvOf(callee, n)
+			fr.callArgVals[fmt.Sprintf("%s#%d#recv", name, n)] = []*Val{fr.val(cc.Value)}
+		}
 	} else if snd, ok := ins.(*ssa.Send); ok {
 		// a send is addressed as chansend(channel, value)
 		if fr.callArgVals == nil {
@@ -1480,6 +1484,9 @@ func (fr *Frame) callSiteSpecs(b *ssa.BasicBlock, idx int, ins ssa.Instruction, 
 		if cc != nil {
 			for _, a := range cc.Args {
 				env.callArgs = append(env.callArgs, fr.val(a))
+			}
+			if cc.IsInvoke() {
+				env.callRecv = fr.val(cc.Value)
 			}
 		} else if r, ok := ins.(*ssa.Return); ok {
 			for _, a := range r.Results {
